@@ -113,6 +113,16 @@ fn check(t: &mut Tape, cx: &mut Cx) -> Res {
         _ => 0,
     };
     let mut mw = MonWriter::with_virtual_base(vbase, &prefix);
+    // a journalling writer whose append methods themselves use the crate (re-entrancy)
+    mw.reentrant = t.chance(15);
+    // the VecWriter may sit on a buffer that was sized in advance or recycled: large capacity, short content
+    if t.chance(15) {
+        let cap = [16 * 1024 + 1, 65535, 70000, 1 << 20][t.below(4)];
+        let mut v = Vec::with_capacity(cap);
+        v.extend_from_slice(&prefix);
+        vw.data = v;
+        cx.class("VecWriter on a pre-sized buffer (capacity far above the length)");
+    }
     let mut expect = prefix.clone();
     let mut n_over = 0u64;
     for (i, v) in vals.iter().enumerate() {
@@ -221,6 +231,9 @@ fn check(t: &mut Tape, cx: &mut Cx) -> Res {
         _ => "prefix of about 2^16 octets or more",
     });
     cx.class(if k >= 2 { "sequence of >= 2 values" } else { "single value" });
+    if mw.reentrant {
+        cx.class("monitoring writer that re-enters the crate from its own methods");
+    }
     if vbase != 0 {
         cx.class("monitoring writer with a virtual base (positions of 2^16 .. 2^62 and more)");
     }
